@@ -8,7 +8,7 @@ Chart spec (JSON-able dict):
   n       number of states, indices 0..n-1; -1 is `top`
   parent  parent[i] in {-1} U {0..i-1}
   init    init[i] is None or a proper descendant of i
-  react   react[i] = {sig: ["handle"] | ["trans", t] | ["decline"] | ["guard", k, t]}
+  react   react[i] = {sig: ["handle"] | ["ignore"] | ["trans", t] | ["decline"] | ["guard", k, t]}
           (absent sig: the state names its parent)
   entry, exit, initc   per-state flags: the handler has that clause
   acts    {"i:KEY": [action, ...]}  KEY in ENTRY/EXIT/INIT/<sig>; actions executed when
@@ -104,6 +104,10 @@ class Model:
         seq.append(("SIG", s, sig, out))
       if out == "handle":
         kind = "handled"
+        S = s
+        break
+      if out == "ignore":
+        # the handler answers IGNORED: the search ends here, nothing else happens
         S = s
         break
       if out == "trans":
